@@ -12,6 +12,7 @@
 #include <cstdio>
 #include <cstring>
 #include <iostream>
+#include <memory>
 #include <set>
 #include <sstream>
 #include <string>
@@ -49,25 +50,38 @@ int main() {
       is >> n >> threads >> rounds >> m;
       std::vector<std::pair<int, int>> pairs(m);
       for (auto& pr : pairs) is >> pr.first >> pr.second;
-      alarm(20);
+      alarm(90);   // generous: only a genuine non-termination (parent cycle) should trip it
       bool ok = true, ord = true;
       std::vector<int> labels(n, 0);
       SeqUF ref(n);
       for (auto& pr : pairs) ref.unite(pr.first, pr.second);
-      for (int round = 0; round < rounds && ok; ++round) {
-        DisjointSets uf(n);
-        std::atomic<int> ready{0};
-        std::atomic<bool> go{false};
-        std::vector<std::thread> ts;
-        for (int t = 0; t < threads; ++t)
-          ts.emplace_back([&, t] {
-            ready.fetch_add(1);
-            while (!go.load(std::memory_order_acquire)) {}
+      // persistent worker threads; every round works on a fresh structure
+      std::unique_ptr<DisjointSets> cur;
+      std::atomic<int> roundNo{0}, doneCnt{0}, arrived{0};
+      std::atomic<bool> quit{false};
+      std::vector<std::thread> ts;
+      for (int t = 0; t < threads; ++t)
+        ts.emplace_back([&, t] {
+          int seen = 0;
+          for (;;) {
+            while (roundNo.load(std::memory_order_acquire) == seen && !quit.load()) std::this_thread::yield();
+            if (quit.load()) return;
+            ++seen;
+            DisjointSets& uf = *cur;
+            arrived.fetch_add(1, std::memory_order_acq_rel);   // tight start line: all workers leave together
+            for (int spin = 0; arrived.load(std::memory_order_acquire) < threads; ++spin)
+              if (spin > 20000) std::this_thread::yield();   // machine may be oversubscribed
             for (int i = t; i < m; i += threads) uf.unite(pairs[i].first, pairs[i].second);
-          });
-        while (ready.load() < threads) {}
-        go.store(true, std::memory_order_release);
-        for (auto& th : ts) th.join();
+            doneCnt.fetch_add(1, std::memory_order_acq_rel);
+          }
+        });
+      for (int round = 0; round < rounds && ok; ++round) {
+        cur.reset(new DisjointSets(n));
+        doneCnt.store(0);
+        arrived.store(0);
+        roundNo.fetch_add(1, std::memory_order_acq_rel);
+        while (doneCnt.load(std::memory_order_acquire) < threads) std::this_thread::yield();
+        DisjointSets& uf = *cur;
         // (rank, id) order along parent pointers: parent has larger rank, or equal rank and smaller id
         for (int i = 0; i < n; ++i) {
           uint32_t p = uf.parent(i);
@@ -93,6 +107,8 @@ int main() {
           for (int j = 0; j < i && ok; ++j)
             if ((comp[i] == comp[j]) != (labels[i] == labels[j])) ok = false;
       }
+      quit.store(true);
+      for (auto& th : ts) th.join();
       alarm(0);
       std::string out = "U " + id + " ok=" + (ok && ord ? "1" : "0") + " ORD=" + (ord ? "1" : "0") + " LABELS";
       for (int v : labels) out += " " + std::to_string(v);
@@ -102,7 +118,7 @@ int main() {
       is >> lg >> threads >> m;
       std::vector<uint64_t> keys(m);
       for (auto& k : keys) is >> k;
-      alarm(20);
+      alarm(90);
       manifold::HashTable<uint64_t> table(size_t(1) << lg);
       {
         std::atomic<int> ready{0};
